@@ -677,6 +677,11 @@ func sameHostRetryHostLost(c *Ctx, idx int, idem bool, hosts int) {
 	gates.Release(gateKey("clientconn.receive.dispatch", first))
 	reply, werr := cl.Wait(ch, 5*time.Second)
 	stepsOK := ProgressSteps(cl, 50, 900)
+	if werr != nil || reply == nil { // late, but before the 50 round trips were over: answered
+		if fs := cl.OnStream(stream); len(fs) > 0 {
+			reply, werr = fs[0], nil
+		}
+	}
 	r.Eval(1)
 	r.Obs("same_host_retry_host_lost_cases", 1)
 	if !refreshed {
